@@ -2274,6 +2274,11 @@ func (data *Data) UpdateRetentionPolicy(database, name string, rpu *RetentionPol
 	if err != nil {
 		return err
 	}
+	if rpu.Name != nil && *rpu.Name == "" {
+		// the empty name stands for the default policy everywhere: a policy renamed to it could
+		// no longer be addressed, and the next such rename would silently overwrite it
+		return ErrRetentionPolicyNameRequired
+	}
 
 	checkRpi := &RetentionPolicyInfo{
 		Duration:           *LoadDurationOrDefault(rpu.Duration, &rpi.Duration),
